@@ -536,8 +536,8 @@ theorem rootJump_sat {data : BState F} {nodes : Nodes} (hd : Ext d0 data) (hn : 
     · exact ext_pushToJumpTable hd _
   · exact ext_pushToJumpTable hd _
 
-theorem pushEndInstructions_ext (last : Option Instr) : ∀ (l : List Instr) (data : BState F), Ext d0 data →
-    Ext d0 (pushEndInstructions last data l) := by
+theorem pushEndInstructions_ext (last : Option Instr) (rootStart : Nat) : ∀ (l : List Instr) (data : BState F), Ext d0 data →
+    Ext d0 (pushEndInstructions last rootStart data l) := by
   intro l
   induction l with
   | nil => intro data h; exact h
@@ -568,7 +568,7 @@ theorem rootLoop_inv (parseTree : Array ParseNode) :
       refine sat_bind (innerLoop_inv parseFloat parseTree crj stepFuel _ ⟨hr, h.2⟩) (fun r2 h2 => ?_)
       obtain ⟨ctx2, fuel2⟩ := r2
       dsimp only
-      exact ih _ _ ⟨pushEndInstructions_ext _ _ _ h2.1, h2.2⟩
+      exact ih _ _ ⟨pushEndInstructions_ext _ _ _ _ h2.1, h2.2⟩
 
 /-- (c) `build` only appends: whatever it returns, the result state extends the initial state -/
 theorem buildCore_ext (fuel parseRoot : Nat) (parseTree : Array ParseNode) (data : BState F) :
@@ -577,7 +577,9 @@ theorem buildCore_ext (fuel parseRoot : Nat) (parseTree : Array ParseNode) (data
   · dsimp only
     refine sat_bind (setNodeIdx_sat (j0 := data.jumps.size) (nodesOk_replicate _ _) _ (bnOk_new _ _ _) _) (fun nodes hnodes => ?_)
     refine sat_bind (rootLoop_inv parseFloat parseTree fuel fuel _ ⟨Ext.refl data, hnodes⟩) (fun ctx hctx => ?_)
-    exact hctx.1
+    split
+    · exact hctx.1
+    · exact sat_buildErr
 
 theorem build_ext (fuel parseRoot : Nat) (parseTree : Array ParseNode) (data : BState F) :
     Sat (fun r => Ext data r.1) (build parseFloat fuel parseRoot parseTree data) := by
@@ -1136,7 +1138,7 @@ theorem validateParseTree_np (root : Nat) (nodes : Array ParseNode) : SatNP (fun
       · exact trivial
       · exact satNP_buildErr
 
-/-- (a) for the traversal itself (`build` as it was before `validate_parse_tree` was added): no panic on a parse
+/-- (a) for the traversal itself (everything after `validate_parse_tree`): no panic on a parse
     result whose root and links are in range and whose symbol / byte-list texts avoid the two slicing panics of the
     literal layer (any fuel, any start state).
     Number and char-list literals need no hypothesis: `parseNumberInternal_np`, `parseCharList_np`. -/
@@ -1150,7 +1152,10 @@ theorem buildCore_no_panic (parseFloat : List Char → Option F) (fuel parseRoot
     intro i b h
     simp [Array.getElem?_replicate] at h
   refine satNP_bind (setNodeIdx_np h0 hroot (bnNP_new _ _ _) _) (fun nodes hnodes => ?_)
-  exact satNP_bind (rootLoop_np parseFloat ht fuel fuel _ hnodes) (fun _ _ => trivial)
+  refine satNP_bind (rootLoop_np parseFloat ht fuel fuel _ hnodes) (fun _ _ => ?_)
+  split
+  · exact trivial
+  · exact satNP_buildErr
 
 /-- (a) `build` never panics under the same precondition -/
 theorem build_no_panic (parseFloat : List Char → Option F) (fuel parseRoot : Nat) (parseTree : Array ParseNode) (data : BState F)
@@ -1161,5 +1166,136 @@ theorem build_no_panic (parseFloat : List Char → Option F) (fuel parseRoot : N
   split
   · exact trivial
   · exact satNP_bind (validateParseTree_np _ _) (fun _ _ => buildCore_no_panic parseFloat _ _ _ _ hroot ht)
+
+
+/-! ## (b), partial: the validation pass terminates within its fuel
+
+`build` runs `validateParseTree` with fuel `nodes.size + 1`; the loop never exhausts it
+(`validateParseTree_terminates`): every iteration pops one index and every push marks a fresh node, so
+`stack.size + #unvisited` drops by one per iteration.  Termination of the emitting traversal on validated trees is
+NOT proved here (it needs the tree structure established by the validation as an invariant of the work lists);
+it is covered empirically: no `FUELOUT` from the model with fuel `20·n + 100` on any generated case once
+`validate_parse_tree` is in place. -/
+
+/-- `SatT P x` : `x` is not `fuelOut`, and if it is `ok a` then `P a` -/
+def SatT {α : Type} (P : α → Prop) : Outcome α → Prop
+  | .ok a => P a
+  | .fuelOut => False
+  | _ => True
+
+theorem satT_bind {α β : Type} {x : Outcome α} {f : α → Outcome β} {Q : α → Prop} {R : β → Prop}
+    (hx : SatT Q x) (hf : ∀ a, Q a → SatT R (f a)) : SatT R (Outcome.bind x f) := by
+  cases x <;> simp_all [Outcome.bind, SatT]
+
+def countFalse (v : Array Bool) : Nat := v.toList.count false
+
+theorem count_set_true : ∀ (l : List Bool) (i : Nat), l[i]? = some false → (l.set i true).count false + 1 = l.count false := by
+  intro l
+  induction l with
+  | nil => intro i h; simp at h
+  | cons b rest ih =>
+    intro i h
+    cases i with
+    | zero =>
+      simp at h; subst h
+      simp [List.set]
+    | succ k =>
+      simp at h
+      have := ih k h
+      simp only [List.set, List.count_cons]
+      omega
+
+theorem validateChild_measure (nodes : Array ParseNode) (index : Nat) (visited : Array Bool) (stack : Array Nat) (child : Nat) :
+    SatT (fun r => r.2.size + countFalse r.1 = stack.size + countFalse visited) (validateChild nodes index visited stack child) := by
+  unfold validateChild
+  split
+  · rename_i childNode childVisited hn hv
+    split
+    · exact trivial
+    · split
+      · exact trivial
+      · rename_i hnv
+        have hf : childVisited = false := by simpa using hnv
+        subst hf
+        show (stack.push child).size + countFalse (visited.setIfInBounds child true) = _
+        have hl : visited.toList[child]? = some false := by simpa using hv
+        have := count_set_true visited.toList child hl
+        simp only [countFalse, Array.toList_setIfInBounds, Array.size_push]
+        omega
+  · exact trivial
+
+theorem back_some_size_pos {α : Type} {a : Array α} {x : α} (h : a.back? = some x) : 0 < a.size := by
+  rcases Nat.eq_zero_or_pos a.size with h0 | h0
+  · have : a = #[] := Array.eq_empty_of_size_eq_zero h0
+    subst this
+    simp at h
+  · exact h0
+
+theorem validateLoop_terminates (nodes : Array ParseNode) : ∀ (fuel : Nat) (visited : Array Bool) (stack : Array Nat),
+    stack.size + countFalse visited < fuel → SatT (fun _ => True) (validateLoop nodes fuel visited stack) := by
+  intro fuel
+  induction fuel with
+  | zero => intro _ _ h; omega
+  | succ k ih =>
+    intro visited stack h
+    unfold validateLoop
+    split
+    · exact trivial
+    · rename_i index hback
+      have hpos := back_some_size_pos hback
+      split
+      · exact trivial
+      · dsimp only
+        refine satT_bind (Q := fun r => r.2.size + countFalse r.1 = stack.pop.size + countFalse visited) ?_ (fun r1 h1 => ?_)
+        · split
+          · exact rfl
+          · exact validateChild_measure _ _ _ _ _
+        · obtain ⟨v1, s1⟩ := r1
+          dsimp only at h1 ⊢
+          refine satT_bind (Q := fun r => r.2.size + countFalse r.1 = s1.size + countFalse v1) ?_ (fun r2 h2 => ?_)
+          · split
+            · exact rfl
+            · exact validateChild_measure _ _ _ _ _
+          · obtain ⟨v2, s2⟩ := r2
+            dsimp only at h2 ⊢
+            apply ih
+            have : stack.pop.size = stack.size - 1 := by simp
+            omega
+
+theorem countFalse_le (v : Array Bool) : countFalse v ≤ v.size := by
+  unfold countFalse
+  have := List.count_le_length (a := false) (l := v.toList)
+  simpa using this
+
+/-- (b), partial: `validate_parse_tree` never runs out of its fuel `nodes.size + 1` -/
+theorem validateParseTree_terminates (root : Nat) (nodes : Array ParseNode) : validateParseTree root nodes ≠ .fuelOut := by
+  have key : SatT (fun _ => True) (validateParseTree root nodes) := by
+    unfold validateParseTree
+    split
+    · exact trivial
+    · rename_i node hroot
+      split
+      · exact trivial
+      · dsimp only
+        refine satT_bind (Q := fun _ => True) (validateLoop_terminates nodes _ _ _ ?_) (fun _ _ => ?_)
+        · -- one entry on the stack; the root is marked, so at most size - 1 unvisited nodes remain
+          have hlt : root < nodes.size := by
+            rcases Nat.lt_or_ge root nodes.size with h | h
+            · exact h
+            · simp [Array.getElem?_eq_none h] at hroot
+          have hl : (Array.replicate nodes.size false).toList[root]? = some false := by
+            simp [hlt]
+          have h1 := count_set_true (Array.replicate nodes.size false).toList root hl
+          have h2 := countFalse_le (Array.replicate nodes.size false)
+          simp only [countFalse, Array.toList_setIfInBounds] at *
+          simp only [Array.size_replicate] at h2
+          simp only [List.size_toArray, List.length_cons, List.length_nil]
+          omega
+        · split
+          · exact trivial
+          · exact trivial
+  intro h
+  rw [h] at key
+  exact key
 
 end Garnish.Lemmas.Build
